@@ -58,6 +58,44 @@ func (r *RectClip64) Execute(paths Paths64) Paths64 {
 	return result
 }
 
+// Execute clips open paths: unlike the polygon clipper it accepts two-point
+// paths, never takes the "entirely inside" shortcut by bounds alone and does
+// not join the pieces along the rectangle's edges.
+func (r *RectClipLines64) Execute(paths Paths64) Paths64 {
+	result := Paths64{}
+
+	if r.rect.IsEmpty() {
+		return result
+	}
+
+	for _, path := range paths {
+		if len(path) < 2 {
+			continue
+		}
+		r.pathBounds = getBounds(path)
+
+		if !r.rect.Intersects(r.pathBounds) {
+			continue
+		}
+
+		r.executeInternalPath64(path)
+
+		for _, op := range r.results {
+			tmp := r.getPath(op)
+			if len(tmp) > 0 {
+				result = append(result, tmp)
+			}
+		}
+
+		r.results = r.results[:0]
+		for i := 0; i < 8; i++ {
+			r.edges[i] = r.edges[i][:0]
+		}
+	}
+
+	return result
+}
+
 func RectClipLinesPaths64(rect Rect64, paths Paths64) Paths64 {
 	if rect.IsEmpty() || len(paths) == 0 {
 		return Paths64{}
